@@ -669,3 +669,259 @@ theorem modifyAt_removeStep_apart (last : Step) (pre : Path) : definite pre = tr
 
 
 end SlipVerif.Json
+
+namespace SlipVerif.Json
+open J
+
+/-! ### wildcards below a definite prefix -/
+
+
+
+theorem getAll_key_obj (k : String) (rest : Path) (kvs : Members) :
+    getAll (.key k :: rest) (obj kvs) = (lookup k kvs).toList.flatMap (getAll rest) := by
+  simp [getAll, stepAll]
+
+theorem getAll_key_not_obj (k : String) (rest : Path) (j : J) (h : ∀ kvs, j ≠ obj kvs) :
+    getAll (.key k :: rest) j = [] := by
+  cases j <;> simp_all [getAll, stepAll]
+
+theorem getAll_idx_arr (i : Int) (rest : Path) (xs : List J) :
+    getAll (.idx i :: rest) (arr xs) =
+      ((resolve i xs.length).bind (fun n => xs[n]?)).toList.flatMap (getAll rest) := by
+  simp only [getAll, stepAll]
+  cases resolve i xs.length <;> simp
+
+theorem getAll_idx_not_arr (i : Int) (rest : Path) (j : J) (h : ∀ xs, j ≠ arr xs) :
+    getAll (.idx i :: rest) j = [] := by
+  cases j <;> simp_all [getAll, stepAll]
+
+/-- along a definite path `modifyAt` changes the located node and nothing else (every selection) -/
+theorem getAll_modifyAt (f : J → J) (pre : Path) : definite pre = true → ∀ (q : Path) (j : J),
+    getAll (pre ++ q) (modifyAt f pre j) = (get pre j).toList.flatMap (fun c => getAll q (f c)) := by
+  induction pre with
+  | nil => intro _ q j; simp [modifyAt, get]
+  | cons s pre ih =>
+    intro hd q j
+    have hs : s.isDef = true := by simp [definite] at hd; exact hd.1
+    have hrest : definite pre = true := by simp [definite] at hd ⊢; exact hd.2
+    simp only [List.cons_append]
+    cases s with
+    | key k =>
+      cases j with
+      | obj kvs =>
+        simp only [modifyAt]
+        cases hl : lookup k kvs with
+        | none => simp [getAll_key_obj, get_key_obj, hl]
+        | some c => simp [getAll_key_obj, get_key_obj, hl, lookup_upsert_same, ih hrest]
+      | _ => simp [modifyAt, getAll_key_not_obj, get_key_not_obj]
+    | idx i =>
+      cases j with
+      | arr xs =>
+        simp only [modifyAt]
+        cases hr : resolve i xs.length with
+        | none => simp [getAll_idx_arr, get_idx_arr, hr]
+        | some n =>
+          have hn := resolve_lt hr
+          cases hx : xs[n]? with
+          | none => simp [getAll_idx_arr, get_idx_arr, hr, hx]
+          | some c => simp [getAll_idx_arr, get_idx_arr, hr, hx, hn, ih hrest]
+      | _ => simp [modifyAt, getAll_idx_not_arr, get_idx_not_arr]
+    | wild => simp [Step.isDef] at hs
+    | desc => simp [Step.isDef] at hs
+
+/-- `remove` with a definite path before the last step (the last step may be a wildcard) -/
+theorem remove_definite_pre (pre : Path) (s : Step) (j : J) (hd : definite pre = true) (hs : s ≠ .desc) :
+    remove (pre ++ [s]) j = .ok (modifyAt (removeStep s) pre j) := by
+  unfold remove
+  rw [splitLast_append_singleton]
+  simp [hs, getLast?_ne_desc_of_definite pre hd]
+
+theorem getAll_wild_removeStep (c : J) : getAll [.wild] (removeStep .wild c) = [] := by
+  cases c <;> simp [removeStep, getAll, stepAll, children]
+
+
+
+/-- what the last wildcard step of a set does to a node -/
+def wildSet (v : J) : J → J
+  | arr xs => arr (xs.map (fun _ => v))
+  | obj kvs => obj (kvs.map (fun kv => (kv.1, v)))
+  | j => j
+
+theorem setLast_wild (v : J) (m : Bool) (j : J) : setLast v m .wild j = .ok (wildSet v j) := by
+  cases j <;> simp [setLast, wildSet]
+
+/-- a set whose path continues below a child that had to be added, and ends in a wildcard, fails:
+    there is nothing under the new container the wildcard could name -/
+theorem setAt_wild_created (v : J) (pre : Path) : definite pre = true →
+    ∀ (s : Step) (c0 : J), mkFor s = .ok c0 →
+      ∀ j', setAt v false (s :: (pre ++ [Step.wild])) c0 ≠ .ok j' := by
+  induction pre with
+  | nil =>
+    intro _ s c0 hm j' h
+    cases s with
+    | key k =>
+      simp [mkFor] at hm; subst hm
+      simp [setAt, lookup, mkFor, bind, Except.bind] at h
+    | idx n =>
+      simp only [mkFor] at hm
+      by_cases h0 : 0 ≤ n
+      · simp [h0] at hm; subst hm
+        simp only [List.nil_append, List.cons_append, setAt, List.length_replicate] at h
+        cases hr : resolve n (n.toNat + 1) with
+        | none => simp [hr] at h
+        | some m =>
+          have hlt := resolve_lt hr
+          simp [hr, List.getElem?_replicate, hlt, follow, isContainer, bind, Except.bind] at h
+      · simp [h0] at hm
+    | wild => simp [mkFor] at hm
+    | desc => simp [mkFor] at hm
+  | cons t pre ih =>
+    intro hd s c0 hm j' h
+    have ht : t.isDef = true := by simp [definite] at hd; exact hd.1
+    have hrest : definite pre = true := by simp [definite] at hd ⊢; exact hd.2
+    cases s with
+    | key k =>
+      simp [mkFor] at hm; subst hm
+      simp only [List.cons_append, setAt, lookup] at h
+      cases hmt : mkFor t with
+      | error e => simp [hmt, bind, Except.bind] at h
+      | ok c1 =>
+        cases hset : setAt v false (t :: (pre ++ [Step.wild])) c1 with
+        | error e => simp [hmt, hset, bind, Except.bind] at h
+        | ok c' => exact ih hrest t c1 hmt c' hset
+    | idx n =>
+      simp only [mkFor] at hm
+      by_cases h0 : 0 ≤ n
+      · simp [h0] at hm; subst hm
+        simp only [List.cons_append, setAt, List.length_replicate] at h
+        cases hr : resolve n (n.toNat + 1) with
+        | none => simp [hr] at h
+        | some m =>
+          have hlt := resolve_lt hr
+          simp [hr, List.getElem?_replicate, hlt, follow, isContainer, bind, Except.bind] at h
+      · simp [h0] at hm
+    | wild => simp [mkFor] at hm
+    | desc => simp [mkFor] at hm
+
+/-- a successful set along a definite path that ends in a wildcard: the path before the wildcard
+    exists and the node there gets the value at every child -/
+theorem setAt_wild_eq_modifyAt (v : J) (pre : Path) : definite pre = true →
+    ∀ (j j' : J), setAt v false (pre ++ [Step.wild]) j = .ok j' →
+      j' = modifyAt (wildSet v) pre j ∧ (get pre j).isSome = true := by
+  induction pre with
+  | nil =>
+    intro _ j j' h
+    simp only [List.nil_append, setAt, setLast_wild] at h
+    cases h
+    simp [modifyAt, get]
+  | cons s pre ih =>
+    intro hd j j' h
+    have hs : s.isDef = true := by simp [definite] at hd; exact hd.1
+    have hrest : definite pre = true := by simp [definite] at hd ⊢; exact hd.2
+    have hnn : pre ++ [Step.wild] ≠ [] := by simp
+    simp only [List.cons_append] at h
+    cases s with
+    | key k =>
+      cases j with
+      | obj kvs =>
+        cases hl : lookup k kvs with
+        | some c =>
+          obtain ⟨c', hset, rfl⟩ := setAt_key_hit v k _ hnn kvs c j' hl h
+          obtain ⟨rfl, hsome⟩ := ih hrest c c' hset
+          simp [modifyAt, hl, get_key_obj, hsome]
+        | none =>
+          exfalso
+          obtain ⟨next, rest', hnr⟩ := List.exists_cons_of_ne_nil hnn
+          rw [hnr] at h
+          simp only [setAt, hl] at h
+          cases hm : mkFor next with
+          | error e => simp [hm, bind, Except.bind] at h
+          | ok c0 =>
+            cases hset : setAt v false (next :: rest') c0 with
+            | error e => simp [hm, hset, bind, Except.bind] at h
+            | ok c' =>
+              cases pre with
+              | nil =>
+                simp only [List.nil_append, List.cons.injEq] at hnr
+                obtain ⟨rfl, _⟩ := hnr
+                simp [mkFor] at hm
+              | cons t pre' =>
+                simp only [List.cons_append, List.cons.injEq] at hnr
+                obtain ⟨rfl, rfl⟩ := hnr
+                have hrest' : definite pre' = true := by simp [definite] at hrest ⊢; exact hrest.2
+                exact setAt_wild_created v pre' hrest' _ c0 hm c' hset
+      | _ =>
+        obtain ⟨next, rest', hnr⟩ := List.exists_cons_of_ne_nil hnn
+        rw [hnr] at h
+        simp [setAt] at h
+    | idx i =>
+      cases j with
+      | arr xs =>
+        obtain ⟨next, rest', hnr⟩ := List.exists_cons_of_ne_nil hnn
+        cases hr : resolve i xs.length with
+        | none => rw [hnr] at h; simp [setAt, hr] at h
+        | some n =>
+          have hn := resolve_lt hr
+          cases hx : xs[n]? with
+          | none => rw [hnr] at h; simp [setAt, hr, hx] at h
+          | some c =>
+            obtain ⟨c', hset, rfl⟩ := setAt_idx_hit v i _ hnn xs n c j' hr hx h
+            obtain ⟨rfl, hsome⟩ := ih hrest c c' hset
+            simp [modifyAt, hr, hx, get_idx_arr, hsome]
+      | _ =>
+        obtain ⟨next, rest', hnr⟩ := List.exists_cons_of_ne_nil hnn
+        rw [hnr] at h
+        simp [setAt] at h
+    | wild => simp [Step.isDef] at hs
+    | desc => simp [Step.isDef] at hs
+
+
+/-- selection through a definite prefix goes through the one node the prefix locates -/
+theorem getAll_append_definite (pre : Path) : definite pre = true → ∀ (q : Path) (j : J),
+    getAll (pre ++ q) j = (get pre j).toList.flatMap (getAll q) := by
+  induction pre with
+  | nil => intro _ q j; simp [get]
+  | cons s pre ih =>
+    intro hd q j
+    have hs : s.isDef = true := by simp [definite] at hd; exact hd.1
+    have hrest : definite pre = true := by simp [definite] at hd ⊢; exact hd.2
+    simp only [List.cons_append]
+    cases s with
+    | key k =>
+      cases j with
+      | obj kvs =>
+        cases hl : lookup k kvs with
+        | none => simp [getAll_key_obj, get_key_obj, hl]
+        | some c => simp [getAll_key_obj, get_key_obj, hl, ih hrest]
+      | _ => simp [getAll_key_not_obj, get_key_not_obj]
+    | idx i =>
+      cases j with
+      | arr xs =>
+        cases hr : resolve i xs.length with
+        | none => simp [getAll_idx_arr, get_idx_arr, hr]
+        | some n =>
+          cases hx : xs[n]? with
+          | none => simp [getAll_idx_arr, get_idx_arr, hr, hx]
+          | some c => simp [getAll_idx_arr, get_idx_arr, hr, hx, ih hrest]
+      | _ => simp [getAll_idx_not_arr, get_idx_not_arr]
+    | wild => simp [Step.isDef] at hs
+    | desc => simp [Step.isDef] at hs
+
+theorem getAll_wild (c : J) : getAll [.wild] c = children c := by
+  simp [getAll, stepAll]
+
+theorem children_wildSet (v c : J) :
+    (∀ x ∈ children (wildSet v c), x = v) ∧ (children (wildSet v c)).length = (children c).length := by
+  cases c with
+  | obj kvs =>
+    simp only [wildSet, children, List.map_map, List.length_map, List.mem_map, and_true]
+    rintro x ⟨kv, _, rfl⟩; rfl
+  | _ => simp [wildSet, children]
+
+
+theorem set_eq_setAt_of_definite (v : J) (p : Path) (j : J) (hd : definite p = true) :
+    set v p j = setAt v false p j := by
+  unfold set
+  simp [getLast?_ne_desc_of_definite p hd]
+
+end SlipVerif.Json
